@@ -71,7 +71,10 @@ RtVariants(c) ==
                                                                             "foreign_ownns_child", "foreign_nested",
                                                                             \* a foreign child whose local name is that of a declared child; text that is not in a
                                                                             \* Unicode normal form (base letter + combining mark, Angstrom / Ohm sign, Hangul jamo)
-                                                                            "foreign_samelocal", "text_denormal"}}
+                                                                            "foreign_samelocal", "text_denormal",
+                                                                            \* mixed content: padded multi-line text on an element that also holds every declared
+                                                                            \* child and a foreign one (the text of a container is content like any other)
+                                                                            "mixed_layout"}}
     \* a tree three levels deep: every declared attribute and child at every level (lists with two members), a foreign
     \* child and a foreign attribute at every level
     \cup {[cls |-> c, kind |-> "deep", which |-> "", n |-> 3]}
@@ -83,7 +86,7 @@ RtOK(v) == v.kind = "child" => v.n <= MaxCount(Children(v.cls)[ChildBy(v.cls, v.
 
 \* how many instances of member m the variant holds
 Count(v, m) == CASE v.kind = "child" /\ v.which = m -> v.n
-                 [] v.kind = "allchildren" /\ Children(v.cls)[ChildBy(v.cls, m)].cls \in Classes -> 1
+                 [] v.kind \in {"allchildren", "mixed_layout"} /\ Children(v.cls)[ChildBy(v.cls, m)].cls \in Classes -> 1
                  [] OTHER -> 0
 \* _add_members_to_element_tree: members in c_child_order (all of c_children when that is empty)
 Emitted(v) == IF Table[v.cls].order = <<>> THEN Members(v.cls) ELSE Members(v.cls) \cap Range(Table[v.cls].order)
@@ -115,6 +118,14 @@ WrongOf(t) == CASE t = "dateTime" -> {"text", "badfields", "trailing", "dateonly
                 \* "P" / "-P": the designator with no component after it
                 [] t = "duration" -> {"text", "designator_only", "designator_only_neg"}
                 [] OTHER -> {}
+\* lexical forms that ARE in the type's lexical space: for a duration every non-empty choice of its six components
+\* (the month and the minute designator are the same letter; which one is meant depends on the side of the T)
+DurFields == {"Y", "Mo", "D", "H", "Mi", "S"}
+DurText(f) == "P" \o (IF "Y" \in f THEN "1Y" ELSE "") \o (IF "Mo" \in f THEN "2M" ELSE "") \o (IF "D" \in f THEN "3D" ELSE "")
+                  \o (IF f \cap {"H", "Mi", "S"} # {} THEN "T" ELSE "")
+                  \o (IF "H" \in f THEN "4H" ELSE "") \o (IF "Mi" \in f THEN "5M" ELSE "") \o (IF "S" \in f THEN "6S" ELSE "")
+GoodOf(t) == IF t = "duration" THEN {DurText(f) : f \in (SUBSET DurFields) \ {{}}} \cup {"-" \o DurText(f) : f \in {{"D", "Mi"}, {"S"}}}
+             ELSE {}
 TextType(c) == LET b == Table[c].text_base IN
                IF b = "datetime" THEN "dateTime" ELSE b
 VaVariants(c) ==
@@ -127,14 +138,17 @@ VaVariants(c) ==
              i \in {j \in 1..Len(Children(c)) : Children(c)[j].max >= 1 /\ Children(c)[j].list /\ Children(c)[j].cls \in Classes}}
     \cup UNION {{[cls |-> c, kind |-> "badtype", which |-> Attrs(c)[i].member, how |-> w] : w \in WrongOf(Attrs(c)[i].type)} :
                    i \in 1..Len(Attrs(c))}
+    \cup UNION {{[cls |-> c, kind |-> "goodtype", which |-> Attrs(c)[i].member, how |-> w] : w \in GoodOf(Attrs(c)[i].type)} :
+                   i \in 1..Len(Attrs(c))}
+    \cup {[cls |-> c, kind |-> "good_text", which |-> "", how |-> w] : w \in GoodOf(TextType(c))}
     \* a value outside the enumeration; one of its literals in another letter case (enumerations are case-sensitive)
     \cup {[cls |-> c, kind |-> "bad_enum", which |-> Attrs(c)[i].member, how |-> w] :
              i \in {j \in 1..Len(Attrs(c)) : Attrs(c)[j].enum # <<>>}, w \in {"", "case"}}
     \* element text of a checked simple type (the table spells the base with or without a prefix, dateTime also in lower case)
     \cup {[cls |-> c, kind |-> "bad_text", which |-> "", how |-> w] : w \in WrongOf(TextType(c))}
     \cup (IF Table[c].text_enum # <<>> THEN {[cls |-> c, kind |-> "bad_text_enum", which |-> "", how |-> w] : w \in {"", "case"}} ELSE {})
-\* the contract: only the unmodified instance is valid
-MustBeValid(v) == v.kind = "valid"
+\* the contract: the unmodified instance is valid, and so is one whose typed value is another member of the lexical space
+MustBeValid(v) == v.kind \in {"valid", "goodtype", "good_text"}
 
 VARIABLES v, pc
 vars == <<v, pc>>
